@@ -196,7 +196,7 @@ class expr(object):
             if fm_t is not None:
                 if name in fm_t.field_id_m.keys():
                     idx = fm_t.field_id_m[name]
-                    ret = expr(ExprIndexedFieldRefModel(em, [idx]))
+                    ret = expr(ExprIndexedFieldRefModel(em, [idx], [name]))
                 else:
                     raise Exception("Field %s not in type %s" % (name, fm_t.name))
             else:
@@ -204,7 +204,7 @@ class expr(object):
 
                 if name in fm.field_id_m.keys():
                     idx = fm.field_id_m[name]
-                    ret = expr(ExprIndexedFieldRefModel(em, [idx]))
+                    ret = expr(ExprIndexedFieldRefModel(em, [idx], [name]))
                 else:
                     raise Exception("Composite %s does not contain a field \"%s\"" % (
                         fm.name, name))
@@ -267,7 +267,7 @@ class expr_subscript(expr):
 
             if aname in fm.type_t.field_id_m.keys():
                 idx = fm.type_t.field_id_m[aname]
-                ret = expr(ExprIndexedFieldRefModel(em, [idx]))
+                ret = expr(ExprIndexedFieldRefModel(em, [idx], [aname]))
             elif aname in fm.type_t.constraint_dynamic_m.keys():
                 idx = fm.type_t.constraint_dynamic_m[aname]
                 ret = dynamic_constraint_proxy(ExprIndexedDynRefModel(em, idx))
